@@ -6,6 +6,10 @@
 // is compared with what the same call returns afterwards, made alone.
 //
 //	vfirst <k>     k rotates which entry point each goroutine calls first
+//	vfirst env-local-clone   nothing in this process has used local time yet:
+//	                         a statement with TZ('Local') and its clone
+//	vfirst env-local-swap    the program assigns time.Local between two parses
+//	                         of a statement with tz('Local')
 package main
 
 import (
@@ -86,7 +90,67 @@ var calls = []call{
 	}},
 }
 
+// envLocal: the two modes in which the process-global time.Local is part of
+// the input. Each runs in a process of its own.
+func envLocal(mode string) int {
+	switch mode {
+	case "env-local-clone":
+		st, err := influxql.ParseStatement("SELECT v FROM m WHERE time > '2020-01-01 00:00:00' TZ('Local')")
+		if err != nil {
+			fmt.Println("ENVLOCAL skipped:", err)
+			return 0
+		}
+		sel := st.(*influxql.SelectStatement)
+		cl := sel.Clone()
+		red := sel.Reduce(nil)
+		a, b, c := sel.String(), cl.String(), red.String()
+		if a != b || a != c {
+			fmt.Printf("MISMATCH original=%q clone=%q reduced=%q\n", a, b, c)
+			return 1
+		}
+		if sel.Location != nil && (cl.Location == nil || cl.Location.String() != sel.Location.String() || red.Location == nil || red.Location.String() != sel.Location.String()) {
+			fmt.Printf("MISMATCH zone of the original %v, of the clone %v, of the reduced statement %v\n", sel.Location, cl.Location, red.Location)
+			return 1
+		}
+		fmt.Println("ENVLOCAL ok")
+		return 0
+	case "env-local-swap":
+		const q = "SELECT v FROM m tz('Local')"
+		st1, err := influxql.ParseStatement(q)
+		if err != nil {
+			fmt.Println("ENVLOCAL skipped:", err)
+			return 0
+		}
+		for i, z := range []*time.Location{time.FixedZone("SWAP1", -5*3600), time.UTC, time.FixedZone("SWAP2", 19800)} {
+			time.Local = z
+			st2, err := influxql.ParseStatement(q)
+			if err != nil {
+				fmt.Printf("MISMATCH after time.Local was assigned (%d) the statement is rejected: %v\n", i, err)
+				return 1
+			}
+			loc := st2.(*influxql.SelectStatement).Location
+			t := time.Date(2020, 6, 1, 12, 0, 0, 0, time.UTC)
+			if loc == nil {
+				fmt.Printf("MISMATCH after time.Local was assigned (%d) the statement has no zone\n", i)
+				return 1
+			}
+			_, got := t.In(loc).Zone()
+			_, want := t.In(time.Local).Zone()
+			if got != want {
+				fmt.Printf("MISMATCH tz('Local') parsed after time.Local was set to %v has offset %d s, local time has %d s (first parse: %v)\n", z, got, want, st1.(*influxql.SelectStatement).Location)
+				return 1
+			}
+		}
+		fmt.Println("ENVLOCAL ok")
+		return 0
+	}
+	return 3
+}
+
 func main() {
+	if len(os.Args) > 1 && strings.HasPrefix(os.Args[1], "env-") {
+		os.Exit(envLocal(os.Args[1]))
+	}
 	k := 0
 	if len(os.Args) > 1 {
 		k, _ = strconv.Atoi(os.Args[1])
